@@ -37,6 +37,8 @@ Inductive expr :=
 | EToInt (a : expr)
 | EStrip (a : expr)
 | ELower (a : expr)
+| EIsDict (a : expr)
+| EJoin (sep : list ascii) (a : expr)        (* sep.join(list of strings) *)
 | EMod (a b : expr)
 | EFormat (template : list ascii) (args : list expr)    (* "...%s..." % (a, b, ...) with string arguments *)
 | ESlice (a lo hi : expr)       (* a[lo:hi]; a bound may be EConst VNone *)
@@ -96,6 +98,16 @@ Fixpoint veqb (a b : value) {struct a} : bool :=
          | _, _ => false
          end) x y
   | _, _ => false
+  end.
+
+Fixpoint join_strs (sep : list ascii) (l : list value) : option (list ascii) :=
+  match l with
+  | [] => Some []
+  | VStr x :: l' => match l' with
+                    | [] => Some x
+                    | _ => option_map (fun t => x ++ sep ++ t) (join_strs sep l')
+                    end
+  | _ => None
   end.
 
 Definition lower_py (c : ascii) : ascii :=
@@ -315,6 +327,7 @@ Fixpoint eval (e : expr) (r : env) {struct e} : value :=
   | ELen a => match eval a r with
               | VStr s => VInt (Z.of_nat (List.length s))
               | VList l => VInt (Z.of_nat (List.length l))
+              | VDict d => VInt (Z.of_nat (List.length d))
               | VExc => VExc
               | _ => VErr
               end
@@ -360,6 +373,17 @@ Fixpoint eval (e : expr) (r : env) {struct e} : value :=
                 | VExc => VExc
                 | _ => VErr
                 end
+  | EIsDict a => match eval a r with
+                 | VDict _ => VBool true
+                 | VExc => VExc
+                 | VErr => VErr
+                 | _ => VBool false
+                 end
+  | EJoin sep a => match eval a r with
+                   | VList l => match join_strs sep l with Some t => VStr t | None => VErr end
+                   | VExc => VExc
+                   | _ => VErr
+                   end
   | ELower a => match eval a r with
                 | VStr s => VStr (map lower_py s)
                 | VExc => VExc
